@@ -407,6 +407,9 @@ class ProdParser:
             if token[0] == self.types.S:
                 try:
                     next_ = next(tokens)
+                    while next_[0] == self.types.S:
+                        # S S, e.g. around a comment which is not parsed
+                        next_ = next(tokens)
                 except StopIteration:
                     yield token
                 else:
